@@ -113,8 +113,9 @@ def check_read_conf(ctx, rng):
         utf8 = locale.getpreferredencoding(False).lower().replace('-', '') in ('utf8',) and sys.getfilesystemencoding().lower().replace('-', '') == 'utf8'
         ctx.klass('non-ascii-locations' if utf8 else 'non-ascii-locations-skipped:locale-is-not-utf8')
         # store locations with non-ASCII characters (the file is text in the locale's encoding, UTF-8 here)
-        abs_pib = os.path.join(root, 'stores', 'pib-Schlüssel' if utf8 else 'pib')
-        abs_tpm = os.path.join(root, 'stores', 'tpm-clés-nœud' if utf8 else 'tpm')
+        # (also: a blank followed by ';' or '#' inside a location is part of the location - only whole lines are comments)
+        abs_pib = os.path.join(root, 'stores', 'pib-Schlüssel ;alt' if utf8 else 'pib ;alt')
+        abs_tpm = os.path.join(root, 'stores', 'tpm-clés-nœud #2' if utf8 else 'tpm #2')
         os.makedirs(abs_pib)
         os.makedirs(abs_tpm)
         for c in all_user_cands + sys_cands:
@@ -357,6 +358,21 @@ def check_keychain(ctx, rng):
             if not isinstance(kc.tpm, TpmFile) or kc.tpm.path != tpm_dir:
                 ctx.report('keychain-tpm-path', f'default_keychain uses tpm {getattr(kc.tpm, "path", None)!r}', {'tpm': tpm_dir})
             kc.conn.close()
+            # the store was initialised with another private-key directory (recorded inside the database) than the one configured
+            # now (moved stores, NDN_CLIENT_TPM pointing elsewhere): the configured one is the one to use
+            other_tpm = os.path.join(root, f'moved-tpm{i}')
+            os.makedirs(other_tpm)
+            kc2 = client_conf.default_keychain(f'pib-sqlite3:{pib_dir}', f'tpm-file:{other_tpm}')
+            ctx.event('keychain-with-relocated-private-keys')
+            if not isinstance(kc2.tpm, TpmFile) or kc2.tpm.path != other_tpm:
+                ctx.report('keychain-tpm-path', f'default_keychain uses tpm {getattr(kc2.tpm, "path", None)!r} although {other_tpm!r} is configured (the database was initialised with {tpm_dir!r})',
+                           {'tpm': other_tpm})
+            else:
+                # and keys really land there
+                kc2.touch_identity(f'/relocated/{i}')
+                if not os.listdir(other_tpm) or len(os.listdir(tpm_dir)) != 0:
+                    ctx.report('keychain-tpm-path', 'a key generated through the configured store landed in another directory', {'tpm': other_tpm})
+            kc2.conn.close()
             for bad in ((f'pib-unknown:{pib_dir}', f'tpm-file:{tpm_dir}'), (f'pib-sqlite3:{pib_dir}', f'tpm-unknown:{tpm_dir}')):
                 try:
                     k2 = client_conf.default_keychain(*bad)
